@@ -41,6 +41,20 @@ THEOREMS = [
     "create_through_child_exists_in_both_for_every_path",
     "update_either_route_same_state_for_every_path",
     "parent_and_child_parts_disjoint",
+    "create_through_child_exists_in_all_ancestors",
+    "level_query_returns_exactly_kept_rows",
+    "chain_delete_removes_entity_at_every_level",
+    "chain_delete_leaves_deep_indexes_untouched",
+    "chain_delete_leaves_no_trace_partial",
+    "grandchild_delete_leaves_index_entry",
+    "chain_delete_fullStatement_fails",
+    "chain_create_captures_old_partial",
+    "grandchild_create_over_root_only_leaves_stale_entries",
+    "grandchild_create_over_root_only_refused_as_own_duplicate",
+    "chain_create_fullStatement_fails",
+    "level_query_agrees_with_lookup_partial",
+    "extended_grandchild_query_lookup_mismatch",
+    "level_query_lookup_fullStatement_fails",
 ]
 
 
@@ -108,9 +122,152 @@ def first_diff_tx(a, b):
     return None
 
 
-# No known finding is listed for C15: Create through a child store over an existing parent entity
-# (reproduced with this check, repaired in /repo by 8269ce9) is ordinary input now.
-MATCHERS = {}
+# Create through a child store over an existing parent entity (reproduced with this check, repaired in
+# /repo by 8269ce9) is ordinary input now.  Listed finding (round 14, three-level chains): see below.
+
+
+def _chain_ctx(case, info):
+    """(token, tx index of the first impl/spec difference, impl segments, spec segments, ops of that tx) or None;
+    requires a three-level chain case on which implementation = model for the whole history"""
+    tok = case.split(" ")[0]
+    if len(tok) != 5 or tok[0] != "t":
+        return None
+    a, m, s = info["impl"], info["model"], info["spec"]
+    if a is None or s is None or a != m:
+        return None
+    t = first_diff_tx(a, s)
+    sa, ss = a.split(" ;; "), s.split(" ;; ")
+    txs = parse_case(case)
+    if t is None or t >= len(sa) or t >= len(ss) or t >= len(txs):
+        return None
+    return tok, t, sa, ss, txs[t]
+
+
+def _flags(seg, store):
+    """ids for which store `store` reports IsEntityPresent in this segment"""
+    out = set()
+    for f in seg.split(" P ")[1].split(" Q ")[0].split(" "):
+        if f.startswith("%d." % store) and f.endswith("=P"):
+            out.add(int(f[2:].split("=")[0]))
+    return out
+
+
+def _explain(case, info):
+    """Which of the three listed chain findings explain the first differing transaction, or None if something
+    in it is explained by none of them.  Requires implementation = model on the whole history.
+      D  grandchild-delete-leaves-index: G declares an index; the transaction contains a DeleteById of an id that
+         had G data; explains (transaction committed) reads of G's index (`g.<v>`, spec `-`) and dump lines of
+         G's index bucket that only the implementation has, or a refusal with dup:tag of a later operation of the
+         same transaction where the spec does not refuse (abort, observations = previous segment).
+      C  grandchild-create-over-root-only: a Create through G meets an id existing in A without C data (presence
+         from the previous segment + the operations before it in the transaction); explains EITHER a refusal
+         with dup:name (by that create, or by a later operation of the same transaction after that create
+         succeeded) where the spec does not refuse - the transaction aborts, observations = previous segment -
+         OR name / roles index reads and dump lines of the root's name / roles index buckets that only the
+         implementation has (stale entries).
+      X  extended-grandchild-query-lookup-mismatch: G is extended; explains additional ids without C data in
+         G's query / iterator answers and FindById misses of G on ids without C data (C extended)."""
+    c = _chain_ctx(case, info)
+    if c is None:
+        return None
+    tok, t, sa, ss, ops = c
+    root = _flags(sa[t - 1], 0) if t > 0 else set()
+    mid = _flags(sa[t - 1], 1) if t > 0 else set()
+    low = _flags(sa[t - 1], 2) if t > 0 else set()
+    (ra, committed, _), (rs, _, _) = segments(sa[t])[0], segments(ss[t])[0]
+    trig_d, trig_c, refused = False, False, False
+    for i, op in enumerate(ops):
+        if i >= len(ra) or i >= len(rs):
+            break
+        if op["kind"] == "c" and op["sel"] == 2 and op["id"] in root and op["id"] not in mid:
+            trig_c = True
+        if ra[i] != rs[i]:
+            if trig_c and ra[i] == "dup:name":
+                refused = "C"
+                break
+            if trig_d and ra[i] == "dup:tag":  # the entry left by a delete earlier in this transaction
+                refused = "D"
+                break
+            return None
+        if ra[i] != "ok":
+            break
+        if op["kind"] == "c":
+            root.add(op["id"])
+            if op["sel"] >= 1:
+                mid.add(op["id"])
+            if op["sel"] == 2:
+                low.add(op["id"])
+        elif op["kind"] == "d":
+            if op["id"] in low and tok[3] == "i":
+                trig_d = True
+            root.discard(op["id"])
+            mid.discard(op["id"])
+            low.discard(op["id"])
+    if refused:
+        prev = sa[t - 1].partition(" F ")[2] if t > 0 else None
+        ok = " abort " in sa[t] and (prev is None or sa[t].partition(" F ")[2] == prev)
+        return {refused} if ok else None
+    trig_d = trig_d and committed
+    trig_x = tok[2] == "x"
+    now_mid = _flags(sa[t], 1)
+    used = set()
+    pa, ps = sa[t].split(" "), ss[t].split(" ")
+    if len(pa) != len(ps):
+        return None
+    for x, y in zip(pa, ps):
+        if x == y:
+            continue
+        kx, _, vx = x.partition("=")
+        ky, _, vy = y.partition("=")
+        if x.startswith("/") and y.startswith("/"):
+            la, ls = set(x.split(",")), set(y.split(","))
+            if ls - la:
+                return None
+            for l in la - ls:
+                if trig_d and "/indexes/things/tag/" in l:
+                    used.add("D")
+                elif trig_c and ("/indexes/things/name/" in l or "/indexes/things/roles/" in l):
+                    used.add("C")
+                else:
+                    return None
+        elif kx != ky:
+            return None
+        elif trig_d and kx.startswith("g.") and vy == "-":
+            used.add("D")
+        elif trig_c and kx.startswith("n.") and vy == "-":
+            used.add("C")
+        elif trig_c and kx.startswith("r.") and (set(vy.split(".")) - {"-"}) < (set(vx.split(".")) - {"-"}):
+            used.add("C")
+        elif trig_x and kx in ("2.t", "2.n1", "2.r1", "2.s", "2.i"):
+            ia = [int(z) for z in vx.split("#")[0].split(".") if z != "-"]
+            isp = [int(z) for z in vy.split("#")[0].split(".") if z != "-"]
+            extra = [z for z in ia if z not in isp]
+            if not extra or any(z in now_mid for z in extra) or any(z not in ia for z in isp):
+                return None
+            used.add("X")
+        elif trig_x and tok[1] == "x" and kx.startswith("2.") and kx[2:].isdigit() and vx == "-" and vy != "-" \
+                and int(kx[2:]) not in now_mid:
+            used.add("X")
+        else:
+            return None
+    return used or None
+
+
+def grandchild_delete_leaves_index(case, info):
+    return "D" in (_explain(case, info) or ())
+
+
+def grandchild_create_over_root_only(case, info):
+    return "C" in (_explain(case, info) or ())
+
+
+def extended_grandchild_query_lookup_mismatch(case, info):
+    return "X" in (_explain(case, info) or ())
+
+
+MATCHERS = {"grandchild-delete-leaves-index": grandchild_delete_leaves_index,
+            "grandchild-create-over-root-only": grandchild_create_over_root_only,
+            "extended-grandchild-query-lookup-mismatch": extended_grandchild_query_lookup_mismatch}
 
 
 def nontrivial(case, impl):
@@ -191,6 +348,11 @@ RULE = ("histories of 4-12 transactions (1-3 operations each; first error aborts
         "child data paths of 1, 2 and 3 segments, shared prefixes (ext.a / ext.b, x.y.a / x.y.b), parent base paths of 1-3 segments, segments named "
         "like the children's field keys; the first 36 cases cycle through the pool, of the rest half keep ext1 / ext2 / u; the stores are wired with "
         "these paths and the dump shows the real buckets; "
+        "t cases (round 14): three-level chains A -> C -> G of real stores (G declared with Parent: C and registered with C; token t<C p|x><G p><G index i|n><path shape 0-2>: "
+        "C and G plain or extended, G with or without an own unique index, G's path extending C's with 1-3 segments; 11 configurations), 26 fixed histories per configuration "
+        "(create through C or G, update / patch / delete through each of the three stores, neighbours holding competing names) + random histories of 4-10 transactions through all three stores "
+        "(every id through every store, Create through G over root-only entities included), after every transaction FindById / IsEntityPresent / 4 queries / IterateIds / IterateValidIds through each store, "
+        "name / roles / code / tag index reads and the full dump compared; "
         "non-trivial = operations through the parent store and through a child store both committed; distinct = history text")
 
 
